@@ -2,6 +2,7 @@ from typing import Dict, List
 
 import numpy as np
 
+from classy_blocks.construct.edges import Project
 from classy_blocks.construct.flat.face import Face
 from classy_blocks.construct.flat.sketches.disk import QuarterDisk
 from classy_blocks.construct.operations.loft import Loft
@@ -177,6 +178,32 @@ class EighthSphere(Shape):
     @property
     def center(self):
         return self.center_point
+
+    def copy(self):
+        """A copy is projected to a sphere of its own
+        (the geometry's label is unique for each object)"""
+        old_label = self.geometry_label
+        copied = super().copy()
+        new_label = copied.geometry_label
+
+        def relabel(labels: List[str]) -> List[str]:
+            return sorted(new_label if label == old_label else label for label in labels)
+
+        for operation in copied.operations:
+            operation.side_projects = [new_label if label == old_label else label for label in operation.side_projects]
+
+            for face in (operation.bottom_face, operation.top_face):
+                if face.projected_to == old_label:
+                    face.projected_to = new_label
+
+                for point in face.points:
+                    point.projected_to = relabel(point.projected_to)
+
+            for edge in [*operation.bottom_face.edges, *operation.top_face.edges, *operation.side_edges]:
+                if isinstance(edge, Project):
+                    edge.label = relabel(edge.label)
+
+        return copied
 
     @property
     def geometry(self):
